@@ -124,13 +124,12 @@ theorem stepOK_trunc (w : World) (hw : WFW w) (h n : Nat) : StepOK w (.trunc h n
           apply hw.update a.file hfi f' hE' hC h { a with posn := min a.posn n } rfl
           · refine ⟨(hlive a.slot).mpr hh.live, by rw [hkey']; exact hh.user, ?_, ?_, hh.special_new, hh.blk⟩
             · show a.special = _; rw [(hshape a.slot hh.live).1]; exact hh.special_iff
-            · intro hs0
-              show a.newElem = true ↔ _
-              rw [(hshape a.slot hh.live).2.2]; exact hh.new_iff hs0
+            · intro hs0 hx'
+              exact hh.new_of_none hs0 ((hshape a.slot hh.live).2.2.mp hx')
           · intro h' a'' _ ha'' ef
             have := (hw.handles h' a'' ha'').live
             rw [ef] at this
-            exact hshape a''.slot this
+            exact ⟨(hshape a''.slot this).1, (hshape a''.slot this).2.1, (hshape a''.slot this).2.2.mp⟩
         refine ⟨hww, ((abs w).setElem a.file ((w.file a.file).keyOf a.slot)
             (some (some (((w.file a.file).bytesAt o l).take n)))).setHnd h
             (some { file := a.file, key := (w.file a.file).keyOf a.slot, pos := min a.posn n }), ?_, ?_⟩
@@ -213,7 +212,7 @@ theorem stepOK_endaccess (w : World) (hw : WFW w) (h : Nat) : StepOK w (.endacce
           intro s; rw [hfile]; split
           · rename_i c; rw [c]; rfl
           · rfl
-        exact hold.transfer (by rw [hd]) (by rw [hd]) (by rw [hd])
+        exact hold.transfer (by rw [hd]) (by rw [hd]) (by rw [hd]; exact id)
     · refine ⟨?_, ?_, ?_⟩
       · intro j
         show (w.file j).present = (((w.setFile a.file { w.file a.file with attach := (w.file a.file).attach - 1 }).delAcc h).file j).present
